@@ -175,7 +175,8 @@ def link(objs, out_name, variant="asan", extra_link=()):
 def f8c():
     """The schema compiler built from the current compiler/*.cpp and runtime (no sanitizer:
     it is a tool here; C13/C14 build their own sanitized copy if they want one)."""
-    objs = compile_many([os.path.join(REPO, "compiler", n) for n in COMPILER_SRCS], "plain")
+    objs = compile_many([os.path.join(REPO, "compiler", n) for n in COMPILER_SRCS], "plain",
+                        extra=["-I" + os.path.join(REPO, "compiler")])
     robjs = runtime_objs("plain")
     return link(objs + robjs, "f8c", "plain")
 
